@@ -372,7 +372,9 @@ def oracle(case: Dict[str, Any], obs: List[Dict[str, Any]]) -> Optional[Dict[str
             for p in also:
                 if p[0] != '@MOD@' or p[1] != str(t['first']):
                     return {'what': 'reported line %s of %r is not the first line of the field containing the problem' % (p[1], p[2]),
-                            'expected': t['first'], 'observed': p[1]}
+                            'expected': t['first'], 'observed': int(p[1]) if p[1].isdigit() else p[1], 'also': True,
+                            'excess': (int(p[1]) - t['first']) if p[1].isdigit() else None,
+                            'first': t['first'], 'prob': t['prob'], 'n0': t['n0'], 'end': t['end']}
         if others:
             return {'what': 'a problem that is not in the module is reported', 'expected': [], 'observed': others}
         if len(mine) != 1:
@@ -821,7 +823,7 @@ class Check(PropertyCheck):
                     out.append(Violation('correspondence', 'e2e: ' + bad[0], case=c, expected=bad[1], observed=bad[2]))
             orc = oracle(c, obs)
             if orc is not None:
-                cc = dict(c, **{k2: orc[k2] for k2 in ('excess', 'first', 'prob', 'n0', 'end') if k2 in orc})
+                cc = dict(c, **{k2: orc[k2] for k2 in ('excess', 'first', 'prob', 'n0', 'end', 'also') if k2 in orc})
                 out.append(Violation('oracle', orc['what'], case=cc, expected=orc['expected'], observed=orc['observed']))
                 if record:
                     self.count('e2e_oracle_failures')
@@ -835,7 +837,7 @@ class Check(PropertyCheck):
     def correspondence(self) -> List[Violation]:
         out: List[Violation] = []
         self.run_unit(out)
-        nrand = 180 if self.tier == "quick" else 9000
+        nrand = 180 if self.tier == "quick" else 6000
         cases = self.e2e_cases(nrand, self.rng)
         self.stats['e2e_random'] = nrand
         self.run_e2e(cases, out)
@@ -870,7 +872,7 @@ class Check(PropertyCheck):
         if v.kind == 'oracle' and 'value' in c and 'sources' in c and 'reported line' in v.what:
             # subtract what the two known defects add; what remains must satisfy the property
             ws = ws_excess(c['value'])
-            rst = 1 if c['problem'] == 'consolidated' else 0
+            rst = 1 if (c['problem'] == 'consolidated' and not c.get('also')) else 0
             if ws + rst > 0 and isinstance(v.observed, int) and isinstance(c.get('first'), int):
                 adj = v.observed - ws - rst
                 if c['fmt'] == 'epytext':
